@@ -20,7 +20,7 @@ def absQ (a : Q) : Q := if a < 0 then -a else a
 
 /-- equal, or equal up to rounding noise (relative 2⁻⁴⁰) — the latter is reported as INEXACT, never as OK -/
 def ratClose (a b : Q) : Bool :=
-  a == b || decide (absQ (a - b) * (2 : Q) ^ 40 ≤ max (absQ a) (absQ b))
+  a == b || decide (absQ (a - b) * (2 : Q) ^ 40 ≤ max 1 (max (absQ a) (absQ b)))
 
 def showQ (q : Q) : String := toString q
 def showVec (v : List Q) : String := "[" ++ ", ".intercalate (v.map showQ) ++ "]"
